@@ -5,6 +5,7 @@ set -e
 cd "$(dirname "$0")"
 export CARGO_NET_OFFLINE=true
 mkdir -p .build/traces .build/cache .build/audit evidence replays
+ln -sfn "${VERIF_REPO:-/repo}" .build/repo
 (cd lean && lake build 2>&1 | tail -5)
 (cd harness && cargo build --release --offline 2>&1 | tail -3)
 echo "setup done"
